@@ -8,6 +8,23 @@ ROOT = os.path.dirname(os.path.dirname(os.path.abspath(__file__)))
 
 # id -> (category, technique, level text, level note, design ref)
 CHECKS = {
+    'C13': ('exploration',
+            'Hypothesis-generated mailboxes and search programs; independent '
+            'RFC 3501 search evaluator as oracle plus metamorphic relations',
+            'Mailboxes of <= 8 generated messages (system flags, session '
+            'keywords, sizes around the LARGER/SMALLER thresholds, internal '
+            'and Date: dates around day boundaries, From/To/Cc/Bcc/Subject/X- '
+            'headers and bodies from a 12-word vocabulary, \\Recent on some, '
+            'optionally a hidden expunged message) and programs over every '
+            'supported key, NOT, OR and parenthesised lists (depth <= 3) on '
+            'dict and maildir. The result is compared with an evaluator '
+            'written from RFC 3501 6.4.4 over the session\'s own view, and '
+            'with itself under: SEARCH vs UID SEARCH, OR commutes, AND '
+            'commutes, (a) = a, De Morgan, k / NOT k partition ALL. Sampled.',
+            'Vocabulary words as search strings, TZ=UTC with +0000 dates, '
+            'every message has a Date header; NOT NOT k not generated; a '
+            'hidden expunged message may or may not be reported.',
+            'DESIGN.md section 3, C13'),
     'C11': ('exploration',
             'Hypothesis-generated namespace programs compared step by step '
             'with a namespace reference model (own non-regex LIST matcher, '
